@@ -5,6 +5,7 @@ import PyAirtouch.Model.Heartbeat
 import PyAirtouch.Model.Codecs
 import PyAirtouch.Model.CodecsWF
 import PyAirtouch.Model.Discovery
+import PyAirtouch.Model.RegistryCmd
 /-! Line-protocol driver over the *model* (Gen + Model). One request per line, one answer per line. -/
 open PyAirtouch PyAirtouch.Util PyAirtouch.Model
 
@@ -30,6 +31,22 @@ def answerPure (ws : List String) : String :=
     match g.toNat?, (len.splitOn ":").mapM String.toNat?, parseHex h with
     | some g, some len, some bs => Model.Codecs.decCmd g key len bs
     | _, _, _ => "bad-op"
+  | ["parse", g, h] =>
+    match g.toNat?, parseHex h with
+    | some g, some bs => Model.RegistryCmd.parseCmd g bs
+    | _, _ => "bad-op"
+  | ["reframe", g, h] =>
+    match g.toNat?, parseHex h with
+    | some g, some bs => Model.RegistryCmd.reframeCmd g bs
+    | _, _ => "bad-op"
+  | ["send", g, pid, h] =>
+    match g.toNat?, pid.toNat?, parseHex h with
+    | some g, some pid, some bs => Model.RegistryCmd.sendCmd g pid bs
+    | _, _, _ => "bad-op"
+  | ["wfframe", g, h] =>
+    match g.toNat?, parseHex h with
+    | some g, some bs => Model.RegistryCmd.wfframeCmd g bs
+    | _, _ => "bad-op"
   | "disc" :: g :: arrivals =>
     let parseA (w : String) : Option (Nat × List Nat) :=
       match w.splitOn ":" with
